@@ -308,6 +308,10 @@ def m3_wav(ctx, al, count):
         keep = rng.random() < .5
         rate = rng.choice([8000, 11025, 44100, 48000, 96000, rng.randint(1, 2 ** 29 - 1)])   # byte rate = rate*ch*width is a 32-bit header field
         nframes = rng.randint(0, 200 // ch)
+        if i % 50 == 7:
+            # long files: the length of a file is not bounded by any internal buffer (1024, 2048, 4096 frames ...)
+            nframes = rng.choice([1023, 1024, 1025, 1500, 2049, 2600, 4097])
+            ch = 2 if i % 100 == 7 else ch
         w = bits // 8
         data = b"".join(rng.choice(EXTREME[bits]) if rng.random() < .2 else bytes(rng.randrange(256) for _ in range(w))
                         for _ in range(nframes * ch))
